@@ -517,7 +517,68 @@ class Analyzer:
                     c = self.prog.classes.get(bt[1])
                     if c is not None and n.attr in c.properties:
                         out.append(c.methods[n.attr])
+        # function values: a function mentioned outside call position (handed to reduce / map / a table of rules)
+        # may be called by whoever receives it; a module-level table mentioned here may hold such functions
+        mod = f.module
+        tables = self._module_tables(mod)
+        for n in ast.walk(f.node):
+            if isinstance(n, ast.Name) and isinstance(n.ctx, ast.Load):
+                g = mod.functions.get(n.id)
+                if g is not None and g is not f:
+                    out.append(g)
+                for nm in tables.get(n.id, ()):
+                    g = mod.functions.get(nm)
+                    if g is not None and g is not f:
+                        out.append(g)
+            elif isinstance(n, ast.Attribute) and isinstance(n.ctx, ast.Load) and isinstance(n.value, ast.Name) \
+                    and n.value.id in ('self', 'cls') and f.cls is not None:
+                m = f.cls.methods.get(n.attr)
+                if m is not None and m is not f:
+                    out.append(m)
+                for nm in self._class_tables(f.cls).get(n.attr, ()):
+                    g = f.cls.methods.get(nm) or mod.functions.get(nm)
+                    if g is not None and g is not f:
+                        out.append(g)
         return out
+
+    def _module_tables(self, mod) -> dict:
+        """module-level NAME = <literal> -> names of functions mentioned inside the literal"""
+        cache = self.__dict__.setdefault('_mtables', {})
+        if mod.relpath not in cache:
+            t = {}
+            for st in mod.tree.body:
+                tg, val = None, None
+                if isinstance(st, ast.Assign) and len(st.targets) == 1 and isinstance(st.targets[0], ast.Name):
+                    tg, val = st.targets[0].id, st.value
+                elif isinstance(st, ast.AnnAssign) and isinstance(st.target, ast.Name) and st.value is not None:
+                    tg, val = st.target.id, st.value
+                if tg:
+                    names = {x.id for x in ast.walk(val) if isinstance(x, ast.Name) and x.id in mod.functions}
+                    names |= {x.attr for x in ast.walk(val) if isinstance(x, ast.Attribute)}
+                    if names:
+                        t[tg] = names
+            cache[mod.relpath] = t
+        return cache[mod.relpath]
+
+    def _class_tables(self, cls) -> dict:
+        cache = self.__dict__.setdefault('_ctables', {})
+        key = (cls.module.relpath, cls.name)
+        if key not in cache:
+            t = {}
+            for st in cls.node.body:
+                tg, val = None, None
+                if isinstance(st, ast.Assign) and len(st.targets) == 1 and isinstance(st.targets[0], ast.Name):
+                    tg, val = st.targets[0].id, st.value
+                elif isinstance(st, ast.AnnAssign) and isinstance(st.target, ast.Name) and st.value is not None:
+                    tg, val = st.target.id, st.value
+                if tg:
+                    names = {x.id for x in ast.walk(val) if isinstance(x, ast.Name)} | \
+                            {x.attr for x in ast.walk(val) if isinstance(x, ast.Attribute)} | \
+                            {x.value for x in ast.walk(val) if isinstance(x, ast.Constant) and isinstance(x.value, str)}
+                    if names:
+                        t[tg] = names
+            cache[key] = t
+        return cache[key]
 
     def reachable(self, roots: Iterable[Func]) -> dict[str, Func]:
         seen: dict[str, Func] = {}
